@@ -15,7 +15,8 @@ import (
 
 var keys = []string{"z1", "Z1", "vol", "str"}
 var members = []string{"a", "b", "c", "d", "e", "A", "", "m\r\nn", "f", "g", "h", "i"}
-var scores = []string{"-1", "0", "1", "1", "2", "2.5", "1e10", "-inf", "+inf", "inf", "3", "4", "5", "6", "7", "-2.5", "1.0"}
+var scores = []string{"-1", "0", "1", "1", "2", "2.5", "1e10", "-inf", "+inf", "inf", "3", "4", "5", "6", "7", "-2.5", "1.0",
+	"9223372036854775807", "-9223372036854775808", "1e19", "-1e19", "1e30", "9007199254740993", "1e-7", "-0"}
 
 func key(t *rapid.T) string {
 	if rapid.IntRange(0, 9).Draw(t, "kk") == 0 {
